@@ -103,13 +103,18 @@ class Env:
         self.rename = dict(rename or {})      # bare-name renaming (parameters / loop variables)
         self.loops = dict(loops or {})        # loop variable -> iterable expression
         self.keep = set(keep or ())           # names never expanded
+        self.values: Dict[str, "Poly"] = {}   # flow-sensitive current values (see forward())
         self._active: List[str] = []
 
     def child(self, **kw) -> "Env":
         e = Env(self.defs, self.rename, self.loops, self.keep)
+        e.values = dict(self.values)
         for k, v in kw.items():
             getattr(e, k).update(v)
         return e
+
+    def copy(self) -> "Env":
+        return self.child()
 
 
 TRANSPARENT_CALLS = {"cast"}          # cast(T, x) -> x
@@ -274,6 +279,8 @@ def _sym(e: ast.AST, env: Env) -> Poly:
         return _atom(repr(e.value))
     if isinstance(e, ast.Name):
         n = e.id
+        if n in env.values:
+            return env.values[n]
         if n in env.defs and n not in env.keep and n not in env._active:
             env._active.append(n)
             try:
@@ -350,6 +357,15 @@ def _sym(e: ast.AST, env: Env) -> Poly:
             fname = e.func.id
         if fname in TRANSPARENT_CALLS and len(e.args) == 2:
             return _sym(e.args[1], env)
+        if fname in ("max", "min") and fname not in env.values and not e.keywords:
+            # max(a, b) == max([a, b]) == max([b, a]); max([c] + xs) keeps the list part as is
+            items = None
+            if len(e.args) == 1 and isinstance(e.args[0], (ast.List, ast.Tuple)):
+                items = e.args[0].elts
+            elif len(e.args) > 1:
+                items = e.args
+            if items is not None and not any(isinstance(i, ast.Starred) for i in items):
+                return _atom("%s{%s}" % (fname, ", ".join(sorted(str(_sym(i, env)) for i in items))))
         f = _sym(e.func, env) if not isinstance(e.func, ast.Name) or e.func.id in env.defs else _atom(e.func.id)
         args = []
         for a in e.args:
@@ -408,3 +424,120 @@ def _slice(s: ast.AST, env: Env) -> str:
     if isinstance(s, ast.Tuple):
         return ", ".join(_slice(x, env) for x in s.elts)
     return str(_sym(s, env))
+
+
+# ---------------------------------------------------------------------------------------------
+# flow-sensitive forward propagation (straight-line code; joins kill disagreeing names)
+
+def _assigned_names(stmts) -> Set[str]:
+    out: Set[str] = set()
+    for st in stmts:
+        for n in ast.walk(st):
+            if isinstance(n, (ast.FunctionDef, ast.AsyncFunctionDef, ast.Lambda, ast.ClassDef)) and n is not st:
+                continue
+            if isinstance(n, ast.Name) and isinstance(n.ctx, (ast.Store, ast.Del)):
+                out.add(n.id)
+    return out
+
+
+def forward(fn_node: ast.AST, base: Optional[Env] = None) -> Dict[int, Env]:
+    """id(stmt) -> environment holding the symbolic value of every local name *before* that statement.
+    Names whose value is not a single known expression at that point (loop-carried, disagreeing branches)
+    are atoms named after themselves."""
+    snaps: Dict[int, Env] = {}
+    start = Env(rename=(base.rename if base else None))
+    if base is not None:
+        start.keep |= base.keep
+
+    def bind(env: Env, target: ast.AST, value: Optional[ast.AST], value_poly: Optional[Poly] = None):
+        if isinstance(target, ast.Name):
+            if value_poly is not None:
+                env.values[target.id] = value_poly
+            elif value is not None:
+                env.values[target.id] = _sym(value, env)
+            else:
+                env.values[target.id] = Poly.atom(target.id)
+        elif isinstance(target, (ast.Tuple, ast.List)):
+            if isinstance(value, (ast.Tuple, ast.List)) and len(value.elts) == len(target.elts):
+                polys = [_sym(v, env) for v in value.elts]
+                for t, pv in zip(target.elts, polys):
+                    bind(env, t, None, pv)
+            elif value is not None:
+                whole = _sym(value, env)
+                for i, t in enumerate(target.elts):
+                    bind(env, t, None, Poly.atom("%s[%d]" % (whole, i)))
+            else:
+                for t in target.elts:
+                    bind(env, t, None)
+        elif isinstance(target, ast.Starred):
+            bind(env, target.value, None)
+
+    def kill(env: Env, names):
+        for n in names:
+            env.values[n] = Poly.atom(env.rename.get(n, n))
+
+    def merge(env: Env, branches: List[Env], names):
+        for n in names:
+            vals = [b.values.get(n) for b in branches]
+            if all(v is not None and v == vals[0] for v in vals):
+                env.values[n] = vals[0]
+            else:
+                env.values[n] = Poly.atom(env.rename.get(n, n))
+
+    def run(stmts, env: Env) -> Env:
+        for st in stmts:
+            snaps[id(st)] = env.copy()
+            if isinstance(st, ast.Assign):
+                # evaluate once, bind all targets
+                for t in st.targets:
+                    bind(env, t, st.value)
+            elif isinstance(st, ast.AnnAssign):
+                if st.value is not None:
+                    bind(env, st.target, st.value)
+            elif isinstance(st, ast.AugAssign):
+                if isinstance(st.target, ast.Name):
+                    env.values[st.target.id] = _sym(ast.BinOp(left=ast.Name(id=st.target.id, ctx=ast.Load()),
+                                                             op=st.op, right=st.value), env)
+            elif isinstance(st, ast.If):
+                names = _assigned_names(st.body) | _assigned_names(st.orelse)
+                e1 = run(st.body, env.copy())
+                e2 = run(st.orelse, env.copy())
+                merge(env, [e1, e2], names)
+            elif isinstance(st, (ast.For, ast.AsyncFor, ast.While)):
+                names = _assigned_names(st.body) | (_assigned_names([st.target]) if hasattr(st, "target") else set())
+                loop_env = env.copy()
+                kill(loop_env, names)
+                if hasattr(st, "target"):
+                    pass  # loop variables stay atoms named after themselves
+                run(st.body, loop_env)
+                kill(env, names)
+                if st.orelse:
+                    run(st.orelse, env)
+            elif isinstance(st, (ast.With, ast.AsyncWith)):
+                for it in st.items:
+                    if it.optional_vars is not None:
+                        bind(env, it.optional_vars, None)
+                run(st.body, env)
+            elif isinstance(st, ast.Try):
+                names = _assigned_names(st.body)
+                run(st.body, env)
+                for h in st.handlers:
+                    henv = env.copy()
+                    kill(henv, names)
+                    run(h.body, henv)
+                    names |= _assigned_names(h.body)
+                kill(env, names)
+                run(st.orelse, env)
+                run(st.finalbody, env)
+            elif isinstance(st, (ast.FunctionDef, ast.AsyncFunctionDef, ast.ClassDef)):
+                env.values[st.name] = Poly.atom(st.name)
+        return env
+
+    body = fn_node.body if not isinstance(fn_node, ast.Lambda) else []
+    run(body, start)
+    return snaps
+
+
+def sym_at(snaps: Dict[int, Env], stmt: ast.stmt, e: ast.AST) -> Poly:
+    """Normal form of expression e evaluated just before statement stmt."""
+    return _sym(e, snaps[id(stmt)])
